@@ -14,3 +14,4 @@ from . import api  # noqa: F401
 from . import nesting  # noqa: F401
 from . import fixes  # noqa: F401
 from . import rules  # noqa: F401
+from . import front_matter  # noqa: F401
